@@ -158,6 +158,15 @@ def catalogue():
     A("metrics.corr(excludenull, NaN)", lambda a: metrics.corr(a["obs"], a["sim"], excludenull=True, type="Pearson"), vecnan, ["obs", "sim"])
     A("metrics.crps(NaN obs)", lambda a: metrics.crps(a["obs"], a["ens"][:, [0, 1, 3]]), ensnan, ["obs", "ens"])
     A("metrics.pit(censor, NaN)", lambda a: metrics.pit(a["obs"], a["ens"], censor=3.0), ensnan, ["obs", "ens"])
+    def enstied(rng):
+        d = {"obs": np.round(rng.uniform(0, 4, n)), "ens": np.round(rng.uniform(0, 4, (n, 6)))}      # observations equal to members, zeros
+        d["obs"][:5] = 0.0
+        d["ens"][:5, :3] = 0.0
+        return d
+    A("metrics.pit(random, ties)", lambda a: metrics.pit(a["obs"], a["ens"], random=True), enstied, ["obs", "ens"], True)
+    A("metrics.pit(random, ties, censor)", lambda a: metrics.pit(a["obs"], a["ens"], random=True, censor=1.0), enstied, ["obs", "ens"], True)
+    A("metrics.alpha(ties)", lambda a: metrics.alpha(a["obs"], a["ens"]), enstied, ["obs", "ens"], True)
+    A("metrics.alpha(ties, KS)", lambda a: metrics.alpha(a["obs"], a["ens"], type="KS"), enstied, ["obs", "ens"], True)
     A("metrics.dscore(eps)", lambda a: metrics.dscore(a["obs"], a["ens"], eps=0.5), ens, ["obs", "ens"])
     A("metrics.iqr(coverage)", lambda a: metrics.iqr(a["ens"], a["ens"][::-1] + 0.5, coverage=80.), ens, ["ens"])
     A("armodels.armodel_sim(defaults, NaN)", lambda a: armodels.armodel_sim(a["p"], a["obs"]),
@@ -250,6 +259,23 @@ def catalogue():
         d["altnan"].data[3, 3] = np.nan
         d["altnan"].data[0, 0] = -5.0
         return d
+    def maskargs(r):
+        # a catchment with a one-cell hole and caller-supplied area masks that do / do not agree with its filled area
+        fr, fc, hr, hc = 5, 6, 2, 3
+        fd = [0 if (rr, cc) == (hr, hc) else 4 if (cc == fc - 1 or (rr == hr and cc < hc)) else 1 for rr in range(fr) for cc in range(fc)]
+        flow = make_grid(gridmod.Grid, fr, fc, fd)
+        cat_ = gridmod.Catchment("ring", flow)
+        cat_.delineate_area(fr * fc - 1, nval=fr * fc + 2)
+        m_area = np.zeros(fr * fc, dtype=np.int64)
+        m_area[cat_.idxcells_area] = 1
+        m_id = np.zeros(fr * fc, dtype=np.int64)
+        m_id[cat_.idxcells_area_filled] = 7
+        m_ok = np.zeros(fr * fc, dtype=np.int64)
+        m_ok[cat_.idxcells_area_filled] = 1
+        return {"ring": cat_, "m_area": m_area, "m_id": m_id, "m_ok": m_ok}
+    for mk_ in ("m_area", "m_id", "m_ok"):
+        A("Catchment.delineate_boundary(mask=%s)" % mk_, lambda a, mk_=mk_: (a["ring"].delineate_boundary(catchment_area_mask=a[mk_]), a["ring"].idxcells_boundary)[1],
+          maskargs, ["ring", mk_])
     A("grid.gsmooth(no mask, NaN cells)", lambda a: gridmod.gsmooth(a["altnan"], coastwin=3, sigma=0.5), gridnan, ["altnan"])
     A("grid.gsmooth(no mask, minval)", lambda a: gridmod.gsmooth(a["altnan"], coastwin=3, sigma=0.5, minval=0.0), gridnan, ["altnan"])
     A("Grid.slice(NaN cells)", lambda a: a["altnan"].slice(a["xy"]), gridnan, ["altnan", "xy"])
